@@ -250,7 +250,8 @@ pub fn generator(tiny: bool) -> TreeGen {
     let scalars: Vec<Node> = if tiny {
         vec![Node::plain("a"), Node::plain("1")]
     } else {
-        vec![Node::plain("a"), Node::scalar("", Style::Double), Node::plain("1")]
+        // (the empty plain scalar is the empty node: `&x` followed by nothing)
+        vec![Node::plain("a"), Node::scalar("", Style::Double), Node::plain("1"), Node::plain("")]
     };
     for s in &scalars {
         for a in &anchors {
